@@ -83,6 +83,11 @@ func explain(e *ev, got string) []string {
 		sort.Strings(ks)
 		return ks
 	}
+	if try() {
+		// the guard itself predicts the observation: the failing comparison is not the
+		// implementation's (a falsified prediction); no finding explains that
+		return nil
+	}
 	n := len(quirkDefs)
 	for a := 0; a < n; a++ {
 		if try(a) {
